@@ -39,6 +39,11 @@ pub fn main(args: &[String]) -> ! {
                 mark(&json!({"ev": "ab", "id": id, "entries": entries}));
                 let r = log.append(wb);
                 mark(&json!({"ev": "ae", "id": id, "ok": r.is_ok()}));
+                // a bare fsync() now and then: a request with watermark 0 queued among the appenders' requests
+                if (x >> 33) % 3 == 0 {
+                    let r = log.fsync();
+                    mark(&json!({"ev": "fs", "ok": r.is_ok()}));
+                }
             }
         }));
     }
